@@ -705,3 +705,45 @@ def _is_expr_disc(prog, f, key):
     if kind == "local":
         return f.local_ty(n) == EXPR
     return False
+
+
+def rule_condition_parens(ctx, prop):
+    """remove_condition_parentheses removes the parentheses around a *whole* condition only"""
+    from paths import Enumerator, TooManyPaths
+    rep = Report(prop, "R-PAREN(cond)", "remove_condition_parentheses strips parentheses only when they wrap its whole argument; an "
+                                        "argument of any other shape is returned unchanged (no parentheses are removed from operands "
+                                        "inside it)")
+    for cfg, prog in ctx.programs.items():
+        f = prog.fn("stylua_lib", "formatters::stmt::remove_condition_parentheses")
+        if not rep.anchor(f is not None, "remove_condition_parentheses", cfg):
+            continue
+        rec = [b for b, t in f.calls() if callee(t).endswith("remove_condition_parentheses")]
+        try:
+            res = Enumerator(f, summaries=False, max_paths=2000).run()
+        except TooManyPaths:
+            rep.anchor(False, "remove_condition_parentheses: too many paths", cfg)
+            continue
+        n = 0
+        bad = set()
+        for st in res:
+            vs = [v for k, v in st.hist if isinstance(v, str) and k.split(".")[0] in ("arg:1", "local:1") or
+                  (isinstance(v, tuple) and v and v[0] == "not")]
+            kinds = [v for k, v in st.hist if isinstance(v, str) and v in (prog.variants("full_moon::ast::Expression", "stylua_lib") or [])]
+            n += 1
+            top = kinds[0] if kinds else None
+            if top == "Parentheses":
+                continue
+            trail = set(st.trail)
+            builds = [s_["rv"]["variant"] for b_, si_, s_ in f.stmts() if b_ in trail and s_["k"] == "assign" and s_["rv"]["k"] == "agg"
+                      and s_["rv"].get("adt", "").endswith("ast::Expression")]
+            recursive = [b_ for b_, c_, t_ in st.calls if b_ in rec]
+            if builds or recursive:
+                bad.add((top or "other", tuple(builds)))
+        rep.inst(f"{f.key} only a top-level Parentheses is unwrapped", {"paths": n}, cfg, ok=not bad)
+        for top, builds in sorted(bad):
+            rep.violation(f"{f.key} condition-parentheses-removed-inside {top}",
+                          f"remove_condition_parentheses rebuilds an argument of kind {top} ({list(builds)}; recursion into its operands): "
+                          f"parentheses around an *operand* are removed without asking check_excess_parentheses - `if (a or b) :: T then` "
+                          f"becomes `if a or b :: T then`, another expression", f.loc(), cfg)
+        rep.floor("paths of remove_condition_parentheses", n, 2, cfg)
+    return rep
